@@ -15,7 +15,8 @@ RULE = ("(i) CJJ14 x4, CT14, ANSS16: a case is (config, key, database, permutati
         "under the same key and an identically re-seeded DRBG. Oracle: the keys of every dict-typed table of the serialized "
         "index are strictly ascending; the full label sequences are equal (CJJ14) / the subsequences of real labels recomputed "
         "from the tokens are equal (CT14, ANSS16). Non-trivial = some table has >= 12 real entries and sigma is not the "
-        "identity. (ii) PiPtr, Pi2Lev, SSE-1, DP17: databases with enough array-resident blocks; the list-typed members of the "
+        "identity; one database per scheme with more than 2**16 entries in the label table (CJJ14: 66 000-70 000; thorough also CT14/ANSS16 "
+        "with 70 000 postings) is checked the same way. (ii) PiPtr, Pi2Lev, SSE-1, DP17: databases with enough array-resident blocks; the list-typed members of the "
         "index are replaced by recording lists; the per-keyword sequences of slots read by Search (a) differ between two "
         "setups (same key where placement is drawn from `random`, fresh key for SSE-1) and from a third setup made in a fresh interpreter "
         "state (construction module reloaded, new scheme object, other entropy), and (b) are not the sequential "
@@ -373,6 +374,11 @@ def body(case, res):
     fp = [scheme, case["part"], sorted((k, repr(v)) for k, v in case["cfg"].items()), case["db"]["lens"], case.get("perm")]
     sample = {"scheme": scheme, "part": case["part"], "cfg": S.public_cfg(case["cfg"]), "lens": case["db"]["lens"],
               "perm": case.get("perm"), "seed": case["seed"]}
+    if case.get("huge"):
+        shape = "%d keywords x %d postings" % (len(case["db"]["lens"]), case["db"]["lens"][0])
+        fp = [scheme, "huge", shape, case["seed"], case["perm"][:3]]
+        sample = {"scheme": scheme, "part": "sorted", "cfg": S.public_cfg(case["cfg"]), "database": shape, "perm": "reversed/shuffled keyword order",
+                  "seed": case["seed"]}
     if case["part"] == "sorted":
         ident = case["perm"] == sorted(case["perm"])
         try:
@@ -382,7 +388,7 @@ def body(case, res):
             raise
         nt = max_real >= 12 and not ident
         res.count(fp, nt, ["scheme:" + scheme, "part:sorted", "sigma:" + ("identity" if ident else "non_identity"),
-                           "max_real_entries:" + (">=12" if max_real >= 12 else "<12")], sample=sample)
+                           "max_real_entries:" + (">2**16" if max_real > 65536 else ">=12" if max_real >= 12 else "<12")], sample=sample)
     else:
         case.setdefault("process_boundary", case["seed"] % 6 == 0)
         try:
@@ -399,8 +405,33 @@ def body(case, res):
         res.count(fp, info["asserted"], cl, sample=sample)
 
 
+HUGE = {  # more than 2**16 entries in the label table (keywords, postings per keyword, configuration)
+    "CJJ14.PiBas": (700, 100, {"param_identifier_size": 4}),
+    "CJJ14.PiPack": (660, 200, {"param_identifier_size": 4, "param_B": 2}),
+    "CJJ14.PiPtr": (700, 100, {"param_identifier_size": 4, "param_B": 1, "param_b": 1}),
+    "CJJ14.Pi2Lev": (66000, 1, {}),
+    "CT14.Pi": (700, 100, {}),
+    "ANSS16.Scheme3": (700, 100, {}),
+}
+
+
+def huge_case(scheme, seed, shuffled):
+    import hashlib
+    nk, per, mod = HUGE[scheme]
+    cfg = S.default_config(scheme)
+    cfg.update(mod)
+    kws = [hashlib.sha256(b"huge%d/%d" % (seed, i)).digest()[:6].hex() for i in range(nk)]
+    perm = list(range(nk))[::-1]
+    if shuffled:
+        perm = sorted(range(nk), key=lambda i: hashlib.sha256(b"perm%d/%d" % (seed, i)).digest())
+    return {"scheme": scheme, "part": "sorted", "cfg": cfg, "huge": True,
+            "db": {"id_size": S.DESCS[scheme].id_size(cfg), "kws": kws, "lens": [per] * nk, "id_mode": "be", "id_seed": seed % 1000 + 1},
+            "perm": perm, "seed": seed}
+
+
 def shards(tier):
     out = [{"kind": "sorted", "scheme": s} for s in SORTED_SCHEMES] + [{"kind": "placed", "scheme": s} for s in PLACED_SCHEMES]
+    out += [{"kind": "huge", "scheme": s} for s in (list(HUGE)[:4] if tier == "quick" else list(HUGE))]
     if tier == "thorough":
         out += [{"kind": "sorted", "scheme": s, "i": 1} for s in SORTED_SCHEMES] + [{"kind": "placed", "scheme": s, "i": 1} for s in PLACED_SCHEMES]
     return out
@@ -409,6 +440,17 @@ def shards(tier):
 def run_shard(spec, seed, tier):
     res = ShardResult()
     n = 40 if tier == "quick" else 250
+    if spec["kind"] == "huge":
+        first = {}
+        for shuffled in ((False,) if tier == "quick" else (False, True)):
+            case = huge_case(spec["scheme"], seed, shuffled)
+            try:
+                body(case, res)
+            except Violation as v:
+                first.setdefault(v.bucket, (case, str(v)))
+        for bucket, (case, msg) in first.items():
+            res.add_violation(case, msg, bucket)
+        return res
     if spec["kind"] == "sorted":
         hyp.search(res, st_sorted_case(spec["scheme"]), body, seed, n)
     else:
